@@ -93,7 +93,7 @@ def step (t : List String) : String :=
         let (n', ts) ← pf ts
         let (S, ts) ← pv ts
         let (r, _) ← pv ts
-        pure (fv (refract Float.sqrt n n' S r))
+        pure (fv (refract Float.sqrt flt n n' S r))
     | "rot" :: ts => do
         let (z, ts) ← pf ts
         let (y, ts) ← pf ts
